@@ -10,9 +10,10 @@
      zbits q j       little-endian binary digits of j (multi-index of entry j of a QTT vector)
      zbits2 q a b    digits 2*c_k + r_k of the pair (a, b) (multi-index of a QTT matrix with (1,4,1)-flattened cores)
      coff ns r k     offset of core k in the one flat vector drawn by rand_custom *)
+From Coq Require Import Reals Lra.
 From Coq Require Import List Arith Lia PeanoNat ZArith QArith Qcanon.
 From TV Require Import Num.Ops Lin.BigSum TT.Chain Model.Tensors
-  Proofs.TensorsP Proofs.TensorsQttP Proofs.TensorsPolyP Proofs.TensorsRandP.
+  Proofs.TensorsP Proofs.TensorsQttP Proofs.TensorsPolyP Proofs.TensorsRandP Proofs.TensorsStabRP.
 Import ListNotations.
 Local Open Scope nat_scope.
 
@@ -231,3 +232,27 @@ Example C19_rand_stab_example :
   get OZ Y [1; 2; 0] = 1%Z /\ get OZ Y [0; 0; 1] = 1%Z /\
   get OZ (rand_stab OZ [2; 3; 2] (inl 2) 1%Z (fun _ _ s _ a p b => (s * Z.of_nat (a + p + b))%Z)) [1; 2; 0] <> 1%Z.
 Proof. repeat split; vm_compute; congruence. Qed.
+
+(* "entries stay of order one in any dimension" (over the reals): if every noise draw is bounded by eps and the
+   ranks by rmax, every entry of the stable random tensor is within (1 + rmax*eps)^d - 1 of one
+   (for noise 1e-15 with 6-sigma draws, r = 10, d = 1000: < 1e-10) *)
+Theorem C19_rand_stab_order_one : forall ns r (noise : R)
+  (normal : nat -> R -> R -> nat * nat * nat -> nat -> nat -> nat -> R) (eps : R) (rmax : nat) idx,
+  let d := length ns in let rs := rank_profile d r in
+  (0 <= eps)%R ->
+  (forall k a p b, (Rabs (normal k 0%R noise (nth k rs 0%nat, nth k ns 0%nat, nth (S k) rs 0%nat) a p b) <= eps)%R) ->
+  nth 0 rs 0 = 1 -> nth d rs 0 = 1 -> (forall k, k <= d -> 1 <= nth k rs 0 <= rmax) -> inb ns idx ->
+  (Rabs (get OR19 (rand_stab OR19 ns r noise normal) idx - 1) <= (1 + INR rmax * eps) ^ d - 1)%R.
+Proof. exact rand_stab_near. Qed.
+
+Example C19_rand_stab_order_one_example :
+  let normal := fun (_ : nat) (_ s : R) (_ : nat * nat * nat) (_ _ _ : nat) => (s * (1 / 2))%R in
+  (0 <= 1 / 1000)%R /\
+  (forall k a p b, (Rabs (normal k 0%R (1 / 500)%R (nth k (rank_profile 3 (inl 2%nat)) 0%nat, nth k [2; 3; 2]%nat 0%nat,
+                          nth (S k) (rank_profile 3 (inl 2%nat)) 0%nat) a p b) <= 1 / 1000)%R) /\
+  (forall k, k <= 3 -> 1 <= nth k (rank_profile 3 (inl 2)) 0 <= 2).
+Proof.
+  cbv zeta. split; [lra|]. split.
+  - intros. rewrite Rabs_right; lra.
+  - intros k Hk. do 4 (destruct k as [|k]; [simpl; lia|]). lia.
+Qed.
